@@ -863,8 +863,13 @@ class TaskGroup(abc.TaskGroup):
             if exc is not None:
                 # The future can only be in the cancelled state if the host task was
                 # cancelled, so return immediately instead of adding one more
-                # CancelledError to the exceptions list
-                if task_status_future is not None and task_status_future.cancelled():
+                # CancelledError to the exceptions list. Any other exception raised by
+                # the task while it was being cancelled must still be reported.
+                if (
+                    task_status_future is not None
+                    and task_status_future.cancelled()
+                    and isinstance(exc, CancelledError)
+                ):
                     return
 
                 if task_status_future is None or task_status_future.done():
